@@ -19,3 +19,4 @@ done
 git -C /repo checkout -- .
 OUT="${OUT%,}}"
 echo "$OUT" > $D/detection.json
+(cd /verif && ./check --regen-all >/dev/null)
